@@ -7,6 +7,7 @@ import (
 	"os"
 	"path/filepath"
 	"runtime"
+	"sort"
 	"strings"
 	"sync"
 
@@ -164,6 +165,13 @@ func rdConcretise(j int, rc rdCase) rdConc {
 			f := rdField{Name: en, Exported: true, FType: "named", Embedded: "value", Doc: rdLines([]string{"plain"}, "zz", j), InnerName: "EF", InnerDoc: []rdLine{}, typeSrc: en}
 			extra += fmt.Sprintf("\n// %s is embedded.\ntype %s struct {\n\tEF string\n}\n", en, en)
 			cc.Fields = append(cc.Fields, f, scalarF("K", true, rc.FDoc))
+		case "embedScalar":
+			// an embedded named scalar (what its name answers is not judged); such cases share their package only with types
+			// that embed nothing (see ExecAll): whatever the generated code needs for embedded fields must be there all the same
+			en := fmt.Sprintf("Kind%d", j)
+			f := rdField{Name: en, Exported: true, FType: "named", Embedded: "scalar", Doc: []rdLine{}, InnerName: "Nope", InnerDoc: []rdLine{}, typeSrc: en}
+			extra += fmt.Sprintf("\n// %s is an embedded named scalar.\ntype %s string\n", en, en)
+			cc.Fields = append(cc.Fields, f, scalarF("K", true, rc.FDoc))
 		case "noExported":
 			cc.Fields = append(cc.Fields, scalarF("g", false, rc.FDoc))
 		case "namedCovered":
@@ -303,6 +311,20 @@ func main() {
 
 func (runtimedocFam) ExecAll(cases []core.CaseIn, seed int64, emit func(c core.CaseIn, cas, conc, obs any)) error {
 	parsed := make([]rdCase, len(cases))
+	// packages are consecutive runs of cases: those that embed a named scalar come first, then those that embed nothing, then
+	// the ones that embed structs - so the first packages hold no struct that embeds a struct
+	rank := func(c core.CaseIn) int {
+		var rc rdCase
+		_ = json.Unmarshal(c.Case, &rc)
+		switch {
+		case rc.FieldPat == "embedScalar":
+			return 0
+		case strings.HasPrefix(rc.FieldPat, "embed"):
+			return 2
+		}
+		return 1
+	}
+	sort.SliceStable(cases, func(a, b int) bool { return rank(cases[a]) < rank(cases[b]) })
 	concs := make([]rdConc, len(cases))
 	for i, c := range cases {
 		if err := json.Unmarshal(c.Case, &parsed[i]); err != nil {
@@ -470,7 +492,7 @@ func (runtimedocFam) Rand(n int, rng *rand.Rand, emit func(cas any)) error {
 		return out
 	}
 	kinds := []string{"struct", "genericStruct", "scalar", "map", "slice", "func"}
-	fps := []string{"one", "withUnexported", "anonStruct", "emptyNamed", "embedValue", "embedPointer", "embedDocumented", "namedCovered", "two", "namedIface", "namedGenericInst", "namedScalar"}
+	fps := []string{"one", "withUnexported", "anonStruct", "emptyNamed", "embedValue", "embedPointer", "embedDocumented", "namedCovered", "two", "namedIface", "namedGenericInst", "namedScalar", "embedScalar"}
 	for i := 0; i < n; i++ {
 		k := kinds[rng.IntN(len(kinds))]
 		c := map[string]any{"kind": k, "doc": doc(7, true), "fieldpat": "none", "fdoc": []string{}}
